@@ -230,30 +230,25 @@ func runHdr(r *common.Run, c hdrCase, class string) {
 		r.Notes = append(r.Notes, "hdr: no header emitted for "+fmt.Sprint(c))
 		return
 	}
-	id := ""
-	if m := idRe.FindSubmatch(hdr); m != nil {
-		id = string(m[1])
-	}
 	// (i) the real decoder
 	obs := "MALFORMED"
-	var got xml.StartElement
-	d := xml.NewDecoder(bytes.NewReader(hdr))
-	for {
-		tok, err := d.Token()
-		if err != nil {
-			break
+	id := ""
+	got, gerr := firstStart(hdr)
+	if gerr == nil {
+		obs = canonStart(got)
+		for _, a := range got.Attr {
+			if a.Name.Space == "" && a.Name.Local == "id" {
+				id = a.Value
+			}
 		}
-		if t, ok := tok.(xml.StartElement); ok {
-			got = t.Copy()
-			obs = canonStart(got)
-			break
-		}
+	} else if m := idRe.FindSubmatch(hdr); m != nil {
+		id = string(m[1])
 	}
 	// the stream id is random: the line carries the header with the id replaced by ID0
 	lineID, lineHdr := id, hdr
 	if id != "" {
 		lineID = "ID0"
-		lineHdr = bytes.Replace(hdr, []byte(" id='"+id+"'"), []byte(" id='ID0'"), 1)
+		lineHdr = bytes.Replace(hdr, []byte(id), []byte("ID0"), -1)
 		if t, err := firstStart(lineHdr); err == nil {
 			obs = canonStart(t)
 		}
